@@ -45,21 +45,23 @@ def clone_mods(mods):
     out = []
     for m in mods:
         c = {k: m[k] for k in ("name", "default", "defs", "trees", "text") if k in m}
-        if m.get("wide"):
-            c["wide"] = True
+        for k in ("wide", "family"):
+            if m.get(k):
+                c[k] = True
         out.append(c)
     return out
 
 
-def build_variants(mods, optsets, jobs=3, prefix="opt"):
+def build_variants(mods, optsets, jobs=3, prefix="opt", select=None):
     """build clones of mods under every option set; returns [(opts, clones)] in the order of optsets.
-    The compiler copy and the skeleton archive are built once, before the threads start."""
+    The compiler copy and the skeleton archive are built once, before the threads start.
+    select(module, opts) -> bool: build only these modules under that option set."""
     build_asn1c()
     build_skeleton_lib(True)
     res = [None] * len(optsets)
 
     def one(i):
-        cl = clone_mods(mods)
+        cl = clone_mods([m for m in mods if select is None or select(m, optsets[i])])
         build_modules(cl, tag="%s%d" % (prefix, i + 1), opts=optsets[i])
         return cl
 
@@ -142,3 +144,24 @@ def run_lines_watchdog(exe, lines, per_line=10.0, env=None):
     elif out and timed_out:
         out.pop()            # an unfinished answer line
     return ("TIMEOUT" if timed_out else p.returncode), out, err
+
+
+def family_sets_thorough():
+    """thorough tier, family modules: every subset of the four options that change the generated STRUCTURES
+    (-fwide-types, -findirect-choice, -fno-constraints, a codec switch) with -fcompound-names, plus the naming/include
+    options on top of some and -fcompound-names absent from some"""
+    out = []
+    core = ["-fwide-types", "-findirect-choice", "-fno-constraints", "-no-gen-OER"]
+    n = 0
+    for k in range(len(core) + 1):
+        for sub in itertools.combinations(core, k):
+            sub = list(sub)
+            if "-no-gen-OER" in sub:
+                n += 1
+                if n % 2 == 0:
+                    sub[sub.index("-no-gen-OER")] = "-no-gen-PER"
+            if sub:
+                out.append(tuple(["-fcompound-names"] + sub))
+    out += [("-fincludes-quoted",), ("-fno-include-deps",), ("-fcompound-names", "-fincludes-quoted", "-fno-include-deps"),
+            ("-fwide-types", "-findirect-choice", "-fno-constraints", "-fincludes-quoted", "-fno-include-deps"), ()]
+    return out
